@@ -8,6 +8,15 @@ from .. import common, gen, tlc
 from . import engine
 from .asyncchecks import _graphs, _hist_run, _hist_step
 
+_QUICK = [False]
+
+
+def _to(t):
+    """per-job wall-clock budget: the external MCS search occasionally explodes on a recorded graph (one job at 100 % CPU for > 20 min was
+    seen); in the quick tier such a job is given up after 10 minutes and reported as skipped"""
+    return min(t, 600) if _QUICK[0] else t
+
+
 ALL_MODES = [["mcs", True], ["mcs", False], ["gen", True], ["gen", False], ["topo", True], ["topo", False]]
 
 RUN_CLAUSE_PROPS = {
@@ -21,7 +30,7 @@ RUN_CLAUSE_PROPS = {
     "MatchesAsync_Ts": {"C01"}, "MatchesAsync_State": {"C01"}, "MatchesAsync_Rng": {"C01"}, "MatchesAsync_Window": {"C01"},
     "MatchesAsync_Output": {"C01"},
     "FinalStepCounter": {"C09"}, "FinalNodeState": {"C09"}, "FinalSeq": {"C09"},
-    "RecordRow": {"C13"}, "RecordNeverExecutedRow": {"C13"}, "PayloadOfNamedSeq": {"C08", "C01"},
+    "RecordRow": {"C13"}, "RecordNeverExecutedRow": {"C13"}, "RecordRowMissing": {"C13"}, "PayloadOfNamedSeq": {"C08", "C01"},
 }
 SCHED_CLAUSE_PROPS = {
     "VertexExists": {"C07"}, "EachVertexOnce": {"C07", "C06"}, "InSeqOrder": {"C07"}, "CarriesOwnTimes": {"C07"}, "CarriesOwnWindow": {"C07"},
@@ -96,11 +105,11 @@ def _static_jobs(seed, n_rec, n_gen, modes_rec, modes_gen, tag):
             ms = [["mcs", False, {}], ["gen", False, {}]] + ms[:1]  # long_sink: prune=False is what attaches the sink steps
         jobs.append(dict(kind="pyfunc", module="harness.compiled_jobs", func="static_job", id=f"{tag}rec{i}", cfg=cfg, seed=seed + i, source="record",
                          histories=[_hist_step(rng.randint(4, 8)), _hist_run(rng.randint(3, 8)), _hist_step(rng.randint(3, 5))][: rng.choice([2, 3])],
-                         modes=ms, timeout=1500))
+                         modes=ms, timeout=_to(1500)))
     for i, cfg in enumerate(_gen_cfgs(seed + 750, n_gen)):
         rng = random.Random(seed + 50 + i)
         jobs.append(dict(kind="pyfunc", module="harness.compiled_jobs", func="static_job", id=f"{tag}gen{i}", cfg=cfg, seed=seed + i, source="generate",
-                         ts_max=rng.choice([32, 48, 64, 96]), num_episodes=rng.choice([1, 2, 3]), modes=modes_gen(i), timeout=1500))
+                         ts_max=rng.choice([32, 48, 64, 96]), num_episodes=rng.choice([1, 2, 3]), modes=modes_gen(i), timeout=_to(1500)))
     # generated graphs with one trainable (zero-order-hold) connection: the scheduled window is extended by ceil(rate_out * (max - min))
     from . import smallchecks
     for i in range(max(1, n_gen // 2)):
@@ -109,11 +118,12 @@ def _static_jobs(seed, n_rec, n_gen, modes_rec, modes_gen, tag):
             continue
         rng = random.Random(seed + 90 + i)
         jobs.append(dict(kind="pyfunc", module="harness.compiled_jobs", func="static_job", id=f"{tag}trn{i}", cfg=cfg, seed=seed + i, source="generate",
-                         ts_max=rng.choice([32, 48, 64]), num_episodes=rng.choice([1, 2]), modes=modes_gen(i), timeout=1500))
+                         ts_max=rng.choice([32, 48, 64]), num_episodes=rng.choice([1, 2]), modes=modes_gen(i), timeout=_to(1500)))
     return jobs
 
 
 def c07(tier, seed):
+    _QUICK[0] = tier == "quick"
     rep = common.Report("C07", tier, seed)
     quick = tier == "quick"
 
@@ -156,7 +166,7 @@ def _run_jobs_for(seed, n, tag, runs_of, modes_of, match_async=False, source="re
     for i, cfg in enumerate(cfgs):
         rng = random.Random(seed + i)
         job = dict(kind="pyfunc", module="harness.compiled_jobs", func="run_job", id=f"{tag}{i}", cfg=cfg, seed=seed + i, source=source,
-                   match_async=match_async, modes=modes_of(i), runs=runs_of(i, rng), timeout=2400)
+                   match_async=match_async, modes=modes_of(i), runs=runs_of(i, rng), timeout=_to(2400))
         if source == "record":
             job["histories"] = [_hist_step(rng.randint(5, 8)), _hist_run(rng.randint(5, 9)), _hist_step(rng.randint(4, 6))][: rng.choice([2, 3])]
         else:
@@ -176,6 +186,7 @@ def _run_campaign(rep, jobs, mine):
 
 
 def c01(tier, seed):
+    _QUICK[0] = tier == "quick"
     rep = common.Report("C01", tier, seed, level="translation_validation")
     quick = tier == "quick"
     full = dict(params=True, rng=True, inputs=True, state=True, output=True)
@@ -217,11 +228,15 @@ def c01(tier, seed):
 
 
 def c08(tier, seed):
+    _QUICK[0] = tier == "quick"
     rep = common.Report("C08", tier, seed)
     quick = tier == "quick"
 
     def runs_of(i, rng):
-        return [dict(eps=0, history=["rollout:99"]), dict(eps=1, history=["reset"] + ["step"] * 3), dict(eps=0, step0=2, history=["run", "run"])]
+        return [dict(eps=0, history=["rollout:99"]), dict(eps=1, history=["reset"] + ["step"] * 3), dict(eps=0, step0=2, history=["run", "run"]),
+                dict(eps=1, history=["gymfull"]),
+                # a stateless agent: every step() is overridden with the SAME step state and output, computed once from reset()'s step state
+                dict(eps=0, history=["gymstale"])]
 
     def modes_of(i):
         pads = [0, 1, 3]
@@ -235,7 +250,7 @@ def c08(tier, seed):
     bjobs = []
     for i, cfg in enumerate(_rec_cfgs(seed + 900, 2 if quick else 10)):
         bjobs.append(dict(kind="pyfunc", module="harness.compiled_jobs", func="buffer_job", id=f"c08b{i}", cfg=cfg, seed=seed + i, source="record",
-                          histories=[_hist_step(6), _hist_run(6)], timeout=2400))
+                          histories=[_hist_step(6), _hist_run(6)], timeout=_to(2400)))
     bres = common.run_jobs(bjobs, timeout=2700)
     st_items = _collect(rep, bres, "static")
     run_items2 = _collect(rep, bres, "runs")
@@ -287,6 +302,7 @@ def _api_histories(max_calls, max_ru, step0=0):
 
 
 def c09(tier, seed):
+    _QUICK[0] = tier == "quick"
     rep = common.Report("C09", tier, seed)
     quick = tier == "quick"
     hs, st = _api_histories(3 if quick else 4, 4, 0)
@@ -351,13 +367,14 @@ def c09(tier, seed):
 
 
 def c06_compiled(rep, tier, seed):
+    _QUICK[0] = tier == "quick"
     """Compiled half of C06: every run=True slot executes exactly once with its sequence number, masked slots and overridden supervisor steps never."""
     quick = tier == "quick"
 
     def runs_of(i, rng):
         # every stacked episode is rolled out over the whole compiled horizon (episodes have unequal lengths: the shorter ones must stay masked)
         return [dict(eps=0, history=["rollout:99"], jit=True), dict(eps=1, history=["rollout:99"], jit=True), dict(eps=2, history=["rollout:99"], jit=True),
-                dict(eps=1, history=["reset", "step", "stepo", "step", "stepo"], jit=True),
+                dict(eps=1, history=["reset", "step", "stepo", "step", "stepo"], jit=True), dict(eps=2, history=["gymfull"], jit=True),
                 dict(eps=0, history=["run", "run"], jit=False)]
 
     def modes_of(i):
@@ -378,6 +395,7 @@ def c06_compiled(rep, tier, seed):
 
 
 def c13(tier, seed):
+    _QUICK[0] = tier == "quick"
     from . import asyncchecks
 
     rep = common.Report("C13", tier, seed)
@@ -441,6 +459,8 @@ def c13(tier, seed):
         # gym-style driving with overridden supervisor steps: an overridden step is an executed step of the record (its output is what the caller
         # handed over), only its step function did not run
         rs += [dict(eps=e, history=["reset", "step", "stepo", "stepo", "step", "stepo"], record=c) for e in ((0,) if quick else (0, 1)) for c in (full, dict(output=True), None)]
+        # a full-length gym episode reaches the last partition: its steps must have rows too
+        rs += [dict(eps=1, history=["gymfull"], record=c) for c in (full, None)]
         return rs
 
     def modes_of(i):
